@@ -137,7 +137,33 @@ func (R *Repository) loadCRL(entry *Entry, chains *core.CertificateChains) (err 
 	if err != nil {
 		return err
 	}
-	var processor = crlstore.CRLPersisterProcessor{CRLStore: entry.CRLStore}
+	//like an update the first load is parsed into a temporary store. The store of the entry is only replaced
+	//once the crl was read completely and was accepted, so a rejected or partly read crl leaves nothing behind
+	identifier, err := entry.CRLLoader.GetCRLLocationIdentifier()
+	if err != nil {
+		return err
+	}
+	store, err := R.Factory.CreateStore(identifier, true)
+	if err != nil {
+		return err
+	}
+	defer func() {
+		if err != nil {
+			store.Close()
+			err2 := store.Delete()
+			if err2 != nil {
+				R.logger.Warn("failed to delete database", zap.Error(err2))
+			}
+		}
+	}()
+	var processor = crlstore.CRLPersisterProcessor{CRLStore: store}
+	crlLocations, locationsErr := entry.CRLStore.GetCRLLocations()
+	if locationsErr == nil {
+		err = processor.UpdateCRLLocations(crlLocations)
+		if err != nil {
+			return err
+		}
+	}
 	result, err := R.crlReader.ReadCRL(processor, tempFileName)
 	if err != nil {
 		return err
@@ -157,6 +183,10 @@ func (R *Repository) loadCRL(entry *Entry, chains *core.CertificateChains) (err 
 			}
 			R.logger.Debug("crl loaded successfully", zap.String("crl", entry.CRLLoader.GetDescription()))
 		}
+	}
+	err = entry.CRLStore.Update(store)
+	if err != nil {
+		return err
 	}
 	entry.Loaded = true
 	entry.Chains = nil
